@@ -83,6 +83,8 @@ structure Hist where
   appClosed : Bool := false
   /-- the send half left `open` through `write_eof` (by the application or on behalf of `eof_received()`) -/
   eofSig : Bool := false
+  /-- an EOF message was put on the wire -/
+  eofSent : Bool := false
   /-- data bytes put on the wire -/
   sentBytes : Nat := 0
   /-- sum of WINDOW_ADJUST values processed -/
@@ -95,6 +97,7 @@ def Hist.record (h : Hist) (pre post : Chan) (ms : List Msg) (os : List Out) : H
   { h with dl := h.dl ++ os,
            eofSig := h.eofSig || (decide (pre.sendState = .opn) &&
                                   (decide (post.sendState = .eofPending) || decide (post.sendState = .eof))),
+           eofSent := h.eofSent || decide (Msg.eof ∈ ms),
            sentBytes := h.sentBytes + bufBytes (dataOf ms),
            adjOut := h.adjOut + adjustSum ms }
 
@@ -140,6 +143,28 @@ def Sys.run (s : Sys) : List Event → Except Err Sys
     match s.step e with
     | .error err => .error err
     | .ok s' => s'.run es
+
+/-! ### the composition over the endpoints as they were before the fixes (witness theorems only) -/
+
+def Sys.stepOld (s : Sys) : Event → Except Err Sys
+  | .app x e =>
+    match Channel.stepOld (s.ep x) e.toEv with
+    | .error err => if err.isApi then .ok s else .error err
+    | .ok r => .ok (s.apply x ((s.hist x).recordApp e) r)
+  | .deliver x =>
+    match s.link x with
+    | [] => .ok s
+    | m :: rest =>
+      match Channel.stepOld (s.ep x) (.recv m) with
+      | .error err => .error err
+      | .ok r => .ok (({ s with link := upd s.link x rest }).apply x ((s.hist x).recordRecv m) r)
+
+def Sys.runOld (s : Sys) : List Event → Except Err Sys
+  | [] => .ok s
+  | e :: es =>
+    match s.stepOld e with
+    | .error err => .error err
+    | .ok s' => s'.runOld es
 
 /-- configuration of one channel: what each side advertises and how its session behaves -/
 structure SideCfg where
